@@ -128,6 +128,61 @@ def build_unit(unit):
                               functions=[dict(name=n, repo_line=l, sha256=X.sha(o)) for (n, l, t, o) in blocks])
 
 
+def build_pipe_unit(unit):
+    """C14 unit: closures k = 0.. of `fn <function>` in `source` become named functions (header replaced, body verbatim)."""
+    src = X.read(unit["source"])
+    src, _ = X.cut_tests(src)
+    log, lost = [], []
+    try:
+        ftxt, fline = X.fn_text(src, unit["function"], is_src=True)
+    except KeyError:
+        raise LostAnchor("function %s no longer exists in %s" % (unit["function"], unit["source"]))
+    # model struct must mirror the real one
+    m = re.search(r"struct SyscallState\s*\{", src)
+    if not m:
+        raise LostAnchor("struct SyscallState not found")
+    stxt = src[m.start():X.match_brace(src, m.end() - 1) + 1]
+    for pat in unit["struct_anchors"]:
+        if not re.search(pat, stxt):
+            raise LostAnchor("SyscallState no longer declares %s" % pat)
+    # the real Syscall enum (attributes other than repr dropped)
+    m = re.search(r"pub enum Syscall\s*\{", src)
+    if not m:
+        raise LostAnchor("enum Syscall not found")
+    etxt = "#[repr(u16)]\n" + src[m.start():X.match_brace(src, m.end() - 1) + 1]
+    opens = list(re.finditer(unit["closure_open"], ftxt))
+    if len(opens) != len(unit["closures"]):
+        raise LostAnchor("%s: %d handler closures found, expected %d" % (unit["function"], len(opens), len(unit["closures"])))
+    prelude = open(os.path.join(VERIF, unit["prelude"])).read().replace("/*SYSCALL_ENUM*/", etxt)
+    out = [prelude, "impl Axecutor {\n"]
+    cur_line = prelude.count("\n") + 2
+    linemap, functions = [], []
+    for c, mo in zip(unit["closures"], opens):
+        b0 = mo.end() - 1
+        b1 = X.match_brace(ftxt, b0)
+        body = ftxt[b0:b1 + 1]
+        repo_line = fline + ftxt[:b0].count("\n")
+        original = body
+        name = c["name"]
+        hdr = "fn %s(ax: &mut Axecutor) -> (res: Result<HookResult, AxError>)\n    %s" % (name, c["contract"].strip("\n") + "\n")
+        try:
+            body, rem = strip_cfg_debug_blocks(body)
+            body = apply_rules(name, body, c.get("rewrites", []), log)
+            body = apply_rules(name, body, c.get("annotations", []), log)
+            txt = hdr + body
+        except LostAnchor as e:
+            lost.append(dict(function=name, reason=str(e)))
+            txt = "#[verifier::external_body]\n" + hdr + "{ unimplemented!() }"
+        out.append("// ---- %s = closure of %s (src %s:%d)\n" % (name, unit["function"], unit["source"], repo_line))
+        cur_line += 1
+        linemap.append(dict(function=name, unit_line=cur_line, repo_file=unit["source"], repo_line=repo_line, n_lines=txt.count("\n") + 1))
+        out.append(txt + "\n")
+        cur_line += txt.count("\n") + 1
+        functions.append(dict(name=name, repo_line=repo_line, sha256=X.sha(original)))
+    out.append("}\n} // verus!\nfn main() {}\n")
+    return "".join(out), dict(lost=lost, rules=log, linemap=linemap, functions=functions)
+
+
 def run_verus(path, rlimit=None, extra=()):
     cmd = ["verus", path, "--output-json", "--time", "--triggers-mode", "silent", "--multiple-errors", "50"] + list(extra)
     if rlimit:
